@@ -351,6 +351,16 @@ impl<T: Transport, E: UtpEnvironment> Dispatcher<T, E> {
                 warn!("error running dispatcher: {e:#}");
                 return Err(e);
             }
+            #[cfg(librqbit_utp_verif)]
+            crate::verif::emit(|| {
+                crate::verif::ProbeEvent::Socket(crate::verif::SocketSnapshot {
+                    local: self.socket.bind_addr(),
+                    streams: self.streams.len(),
+                    connecting: self.connecting.values().map(|c| c.len).sum(),
+                    cached_syns: self.accept_queue.syns.len(),
+                    max_streams: self.socket.opts.max_active_streams.get(),
+                })
+            });
         }
     }
 
@@ -368,6 +378,17 @@ impl<T: Transport, E: UtpEnvironment> Dispatcher<T, E> {
             },
             recv = self.socket.transport.recv_from(read_buf) => {
                 let (len, addr) = recv.map_err(Error::Recv)?;
+                #[cfg(librqbit_utp_verif)]
+                {
+                    let accepted = UtpMessage::deserialize(&read_buf[..len]).is_some();
+                    let local = self.socket.bind_addr();
+                    crate::verif::emit(|| crate::verif::ProbeEvent::Parsed {
+                        local,
+                        from: addr,
+                        len,
+                        accepted,
+                    });
+                }
                 let message = match UtpMessage::deserialize(&read_buf[..len]) {
                     Some(msg) => msg,
                     None => {
